@@ -6,3 +6,4 @@ pub mod model;
 pub mod props;
 pub mod source;
 pub mod tables;
+pub mod world;
